@@ -325,6 +325,16 @@ TARGETS = list(GL.TARGETS) + [
     ("src/bitvector/mod.rs", "BitVectorBitPositionsIter", "Iterator::next", "g_pi0_next", {"BIT": False, "Item": "usize"}),
     ("src/bitvector/mod.rs", "BitVectorIter", "Iterator::next", "g_bvit_next", {"Item": "bool"}),
     ("src/bitvector/mod.rs", "BitVectorIter", "ExactSizeIterator::len", "g_bvit_len", {}),
+    ("src/bitvector/mod.rs", "BitVector", "ones", "g_bv_ones", {"BIT": True}),
+    ("src/bitvector/mod.rs", "BitVector", "ones_with_pos", "g_bv_ones_with_pos", {"BIT": True}),
+    ("src/bitvector/mod.rs", "BitVector", "zeros", "g_bv_zeros", {"BIT": False}),
+    ("src/bitvector/mod.rs", "BitVector", "zeros_with_pos", "g_bv_zeros_with_pos", {"BIT": False}),
+    ("src/bitvector/mod.rs", "BitVector", "iter", "g_bv_iter", {}),
+    ("src/bitvector/mod.rs", "BitVectorMut", "ones", "g_bvm_ones", {"BIT": True}),
+    ("src/bitvector/mod.rs", "BitVectorMut", "ones_with_pos", "g_bvm_ones_with_pos", {"BIT": True}),
+    ("src/bitvector/mod.rs", "BitVectorMut", "zeros", "g_bvm_zeros", {"BIT": False}),
+    ("src/bitvector/mod.rs", "BitVectorMut", "zeros_with_pos", "g_bvm_zeros_with_pos", {"BIT": False}),
+    ("src/bitvector/mod.rs", "BitVectorMut", "iter", "g_bvm_iter", {}),
     # ---- group wtnew: the plain binary WaveletTree::new
     ("src/binwt/mod.rs", "WaveletTree", "new", "g_wt_new", {"T": "@T", "BRS": "RSWide", "COMPRESSED": False}),
     ("src/binwt/mod.rs", "WaveletTree", "FromIterator::from_iter", "g_wt_from_iter", {"T": "@T", "I": "[@T]", "BRS": "RSWide", "COMPRESSED": False}),
@@ -4016,7 +4026,13 @@ WTNEW_COQ = ("g_wt_new", "g_wt_from_iter", "g_wt_from_vec")
 QWTNEW_COQ = ("g_qwt256_new", "g_qwt512_new", "g_qwt256_from_vec", "g_qwt512_from_vec", "g_qwt256_from_iter", "g_qwt512_from_iter")
 
 
+ITER_CTORS = {"g_bv_ones", "g_bv_ones_with_pos", "g_bv_zeros", "g_bv_zeros_with_pos", "g_bv_iter",
+              "g_bvm_ones", "g_bvm_ones_with_pos", "g_bvm_zeros", "g_bvm_zeros_with_pos", "g_bvm_iter"}
+
+
 def in_group(group, owners_g, owner, coq):
+    if coq in ITER_CTORS:
+        return group == "iters"
     if group == "craft":
         return coq == "g_craft_wm_codes4"
     if group == "craft2":
